@@ -23,7 +23,7 @@ pub enum Op {
 
 pub const REG_LANGS: [L; 2] = [L::None, L::En];
 pub const RECS: [(usize, &str, usize); 3] = [(1, "alpha beta", 5), (2, "beta", 9), (3, "al", 7)];
-pub const LIMITS: [usize; 2] = [1, 10];
+pub const LIMITS: [usize; 3] = [0, 1, 10];
 pub const MARKERS: [(&str, &str); 2] = [("[", "]"), ("<", ">")];
 pub const QUERIES: [&str; 3] = ["", "be", "alpha"];
 
@@ -315,7 +315,7 @@ impl C20 {
 impl Prop for C20 {
     fn doms(&self) -> Vec<Dom> {
         vec![Dom::new("registry-bfs", self.configs.len() as u64, 1).budget(self.tier.pick(170, 3000)).note(format!(
-            "per configuration (store ids, merged depth, unmerged depth, start state 0 = empty registry / 1 = store 1 preloaded with two records): {:?}; ops: create x2 languages, destroy, add_record x3, set_limit x2, highlight_with x2, run_search x3 per id, valid calls only; using_results read for every live id after every operation",
+            "per configuration (store ids, merged depth, unmerged depth, start state 0 = empty registry / 1 = store 1 preloaded with two records): {:?}; ops: create x2 languages, destroy, add_record x3, set_limit x3 (0, 1, 10), highlight_with x2, run_search x3 per id, valid calls only; using_results read for every live id after every operation",
             self.configs
         ))]
     }
